@@ -19,7 +19,7 @@ ASSUMPTIONS = ["saved-channel subsets are prefixes of the 384 acquired channels 
                "NPultra has no geometry-map reference in the fixtures: shank-map encoding only",
                "mux tables: NP1/NPultra 32 ADCs x 12 channels over 13 slots, NP2 24 ADCs x 16 channels over 16 slots (SpikeGLX muxTbl)"]
 REQUIRED = {"geometries_checked": 40, "joint_permutation_checked": 40, "encodings_compared": 10, "split_checked": 4, "grid_points": 1000,
-            "adc_checked": 40, "cached_tag_variants": 200, "lf_band_geometries": 20, "split_reader_geometries": 8}
+            "adc_checked": 40, "cached_tag_variants": 200, "lf_band_geometries": 20, "split_reader_geometries": 8, "reader_lifetime_geometries": 30}
 CASE_TIMEOUT = 60.0
 KEYS = [("x", "x"), ("y", "y"), ("shank", "shank"), ("row", "row"), ("col", "col_out"), ("adc", "adc"), ("sample_shift", "sample_shift")]
 
@@ -102,6 +102,24 @@ def run_case(case):
                         res.check(all(np.array_equal(sr.geometry[k], gg[k]) for k in gg), "Reader.geometry", f"{label}: Reader(sort={sort}).geometry differs")
                         res.check(np.array_equal(sr.raw_channel_order[:n], gg["ind"]) and sr.raw_channel_order[n:].tolist() == list(range(n, n + 1)),
                                   "Reader.raw_channel_order", f"{label}: raw_channel_order is not the geometry's permutation")
+                    # the geometry of a reader OBJECT over its life (round 20): asked for in sorted or file order when made, it describes the same sites
+                    # in the same order after the reader compressed its binary in place, and again after it decompressed it in place
+                    if j % 2 == 0 and enc == encs[-1]:
+                        for sort in (True, False):
+                            dd = d / f"life{j}_{int(sort)}"
+                            rb = G.make(rng, kind=kind, sites=sites, encoding=enc, ns=300, port_slot=(2, 3) if "imDatPrb_port" in rec.meta else None)
+                            bb = G.write(rb, dd)
+                            gg = gs if sort else gu
+                            srl = spikeglx.Reader(bb, sort=sort)
+                            steps = [("opened", lambda: None), ("compress_file(keep_original=False)", lambda: srl.compress_file(keep_original=False)),
+                                     ("decompress_file(keep_original=False)", lambda: srl.decompress_file(keep_original=False))]
+                            for name_, act in steps:
+                                act()
+                                gl = srl.geometry
+                                res.check(gl is not None and all(np.array_equal(gl[k], gg[k]) for k in gg) and np.array_equal(srl.raw_channel_order[:n], gg["ind"]),
+                                          "Reader.geometry:object-lifetime", f"{label}: Reader(sort={sort}) after {name_}: the geometry / channel order of the reader object "
+                                          f"is no longer the one asked for", counter="reader_lifetime_geometries")
+                            srl.close()
                     # ADC model: delays depend on original channel and generation only; per ADC distinct and evenly spaced
                     adc, ss = gu["adc"], gu["sample_shift"]
                     okadc = True
